@@ -58,6 +58,21 @@ proof fn lemma_dec_enc_u64s(s: Seq<u64>, tail: Seq<u8>, i: int)
         assert(enc_u64s(s.drop_last()) + (le64_bytes(s.last()) + tail) =~= e);
     }
 }
+proof fn lemma_enc_u64s_at(s: Seq<u64>, pre: Seq<u8>, tail: Seq<u8>, i: int)
+  requires 0 <= i < s.len()
+  ensures ({ let e = pre + enc_u64s(s) + tail; let o = pre.len() + 8 * i; e.subrange(o, o + 8) == le64_bytes(s[i]) })
+  decreases s.len()
+{
+    lemma_enc_u64s_len(s); lemma_enc_u64s_len(s.drop_last()); lemma_le64_roundtrip(s.last());
+    let e = pre + enc_u64s(s) + tail; let o = pre.len() + 8 * i;
+    if i == s.len() - 1 {
+        assert(e.subrange(o, o + 8) =~= le64_bytes(s.last()));
+    } else {
+        let t2 = le64_bytes(s.last()) + tail;
+        lemma_enc_u64s_at(s.drop_last(), pre, t2, i);
+        assert(pre + enc_u64s(s.drop_last()) + t2 =~= e);
+    }
+}
 proof fn lemma_skip_take(b: Seq<u8>, off: int, n: int)
   requires 0 <= off, 0 <= n, off + n <= b.len()
   ensures b.skip(off).take(n) == b.subrange(off, off + n), b.skip(off).skip(n) == b.skip(off + n), b.skip(off).len() == b.len() - off
@@ -159,27 +174,37 @@ struct SketchSlice<'a> {
 }
 
 impl SketchSlice<'_> {
-    uninterp spec fn rem(&self) -> Seq<u8>;
+    // the std Cursor is abstracted by the bytes it was created over and the read position (no Seq::skip/take chains: the parsers
+    // reason about plain offsets)
+    uninterp spec fn data(&self) -> Seq<u8>;
+    uninterp spec fn pos(&self) -> int;
+    spec fn inv(&self) -> bool { 0 <= self.pos() <= self.data().len() }
+    spec fn rem(&self) -> Seq<u8> { self.data().skip(self.pos()) }
+    // a read of n bytes: succeeds iff they are there, then returns bytes [pos, pos+n) and advances
+    spec fn reads(pre: Self, post: Self, n: int) -> bool { post.data() == pre.data() && post.inv() && post.pos() == pre.pos() + n }
+    spec fn fails(pre: Self, post: Self) -> bool { post.data() == pre.data() && post.inv() }
 
     #[verifier::external_body]
-    fn new(slice: &[u8]) -> (r: SketchSlice<'_>) ensures r.rem() == slice@ {
+    fn new(slice: &[u8]) -> (r: SketchSlice<'_>) ensures r.data() == slice@, r.pos() == 0, r.inv() {
         unimplemented!()
     }
 
     #[verifier::external_body]
     fn read_exact(&mut self, buf: &mut [u8]) -> (r: io::Result<()>)
+      requires old(self).inv()
       ensures
-        old(self).rem().len() >= old(buf)@.len() ==> (r is Ok && final(buf)@ == old(self).rem().take(old(buf)@.len() as int) && final(self).rem() == old(self).rem().skip(old(buf)@.len() as int)),
-        old(self).rem().len() < old(buf)@.len() ==> r is Err,
+        old(self).pos() + old(buf)@.len() <= old(self).data().len() ==> (r is Ok && final(buf)@ == old(self).data().subrange(old(self).pos(), old(self).pos() + old(buf)@.len()) && Self::reads(*old(self), *final(self), old(buf)@.len() as int)),
+        old(self).pos() + old(buf)@.len() > old(self).data().len() ==> r is Err && Self::fails(*old(self), *final(self)),
         final(buf)@.len() == old(buf)@.len(),
     {
         unimplemented!()
     }
 
     fn read_u8(&mut self) -> (r: io::Result<u8>)
+      requires old(self).inv()
       ensures
-        old(self).rem().len() >= 1 ==> (r matches Ok(v) && v == old(self).rem()[0] && final(self).rem() == old(self).rem().skip(1)),
-        old(self).rem().len() < 1 ==> r is Err,
+        old(self).pos() + 1 <= old(self).data().len() ==> (r matches Ok(v) && v == old(self).data()[old(self).pos()] && Self::reads(*old(self), *final(self), 1)),
+        old(self).pos() + 1 > old(self).data().len() ==> r is Err && Self::fails(*old(self), *final(self)),
     {
         let mut buf = [0u8; 1];
         self.read_exact(&mut buf)?;
@@ -187,9 +212,10 @@ impl SketchSlice<'_> {
     }
 
     fn read_u16_le(&mut self) -> (r: io::Result<u16>)
+      requires old(self).inv()
       ensures
-        old(self).rem().len() >= 2 ==> (r matches Ok(v) && v == le16_val(old(self).rem().take(2)) && final(self).rem() == old(self).rem().skip(2)),
-        old(self).rem().len() < 2 ==> r is Err,
+        old(self).pos() + 2 <= old(self).data().len() ==> (r matches Ok(v) && v == le16_val(old(self).data().subrange(old(self).pos(), old(self).pos() + 2)) && Self::reads(*old(self), *final(self), 2)),
+        old(self).pos() + 2 > old(self).data().len() ==> r is Err && Self::fails(*old(self), *final(self)),
     {
         let mut buf = [0u8; 2];
         self.read_exact(&mut buf)?;
@@ -197,9 +223,10 @@ impl SketchSlice<'_> {
     }
 
     fn read_u32_le(&mut self) -> (r: io::Result<u32>)
+      requires old(self).inv()
       ensures
-        old(self).rem().len() >= 4 ==> (r matches Ok(v) && v == le32_val(old(self).rem().take(4)) && final(self).rem() == old(self).rem().skip(4)),
-        old(self).rem().len() < 4 ==> r is Err,
+        old(self).pos() + 4 <= old(self).data().len() ==> (r matches Ok(v) && v == le32_val(old(self).data().subrange(old(self).pos(), old(self).pos() + 4)) && Self::reads(*old(self), *final(self), 4)),
+        old(self).pos() + 4 > old(self).data().len() ==> r is Err && Self::fails(*old(self), *final(self)),
     {
         let mut buf = [0u8; 4];
         self.read_exact(&mut buf)?;
@@ -207,9 +234,10 @@ impl SketchSlice<'_> {
     }
 
     fn read_u64_le(&mut self) -> (r: io::Result<u64>)
+      requires old(self).inv()
       ensures
-        old(self).rem().len() >= 8 ==> (r matches Ok(v) && v == le64_val(old(self).rem().take(8)) && final(self).rem() == old(self).rem().skip(8)),
-        old(self).rem().len() < 8 ==> r is Err,
+        old(self).pos() + 8 <= old(self).data().len() ==> (r matches Ok(v) && v == le64_val(old(self).data().subrange(old(self).pos(), old(self).pos() + 8)) && Self::reads(*old(self), *final(self), 8)),
+        old(self).pos() + 8 > old(self).data().len() ==> r is Err && Self::fails(*old(self), *final(self)),
     {
         let mut buf = [0u8; 8];
         self.read_exact(&mut buf)?;
@@ -383,17 +411,19 @@ spec fn zip_seq<T>(a: Seq<T>, b: Seq<u64>) -> Seq<(T, u64)> { Seq::new(if a.len(
 #[verifier::reject_recursive_types(T)]
 struct VxZip<T> { it: std::iter::Zip<std::vec::IntoIter<T>, std::vec::IntoIter<u64>> }
 impl<T> VxZip<T> {
-    uninterp spec fn rest(&self) -> Seq<(T, u64)>;
+    uninterp spec fn all(&self) -> Seq<(T, u64)>;     // every pair the iterator was created over
+    uninterp spec fn idx(&self) -> int;               // how many have been yielded
     #[verifier::external_body]
     fn next(&mut self) -> (r: Option<(T, u64)>)
-      ensures
-        old(self).rest().len() == 0 ==> r is None && final(self).rest() == old(self).rest(),
-        old(self).rest().len() > 0 ==> r == Some(old(self).rest()[0]) && final(self).rest() == old(self).rest().skip(1),
+      requires 0 <= old(self).idx() <= old(self).all().len()
+      ensures final(self).all() == old(self).all(),
+        old(self).idx() == old(self).all().len() ==> r is None && final(self).idx() == old(self).idx(),
+        old(self).idx() < old(self).all().len() ==> r == Some(old(self).all()[old(self).idx()]) && final(self).idx() == old(self).idx() + 1,
     { self.it.next() }
 }
 #[verifier::external_body]
 fn vx_zip<T>(items: Vec<T>, values: Vec<u64>) -> (r: VxZip<T>)
-  ensures r.rest() == zip_seq(items@, values@)
+  ensures r.all() == zip_seq(items@, values@), r.idx() == 0
 { VxZip { it: items.into_iter().zip(values) } }
 
 proof fn lemma_rows_val_absent<T>(keys: Seq<T>, vals: Seq<u64>, k: T)
@@ -548,7 +578,9 @@ spec fn hdr_empty(b: Seq<u8>) -> bool { b[5] & 5 != 0 }
 spec fn hdr_n(b: Seq<u8>) -> int { le32_val(b.subrange(8, 12)) as int }
 spec fn hdr_sw(b: Seq<u8>) -> u64 { le64_val(b.subrange(16, 24)) }
 spec fn hdr_off(b: Seq<u8>) -> u64 { le64_val(b.subrange(24, 32)) }
-spec fn dec_vals(b: Seq<u8>) -> Seq<u64> { dec_u64s(b.skip(32), hdr_n(b)) }
+spec fn dec_val_at(b: Seq<u8>, i: int) -> u64 { le64_val(b.subrange(32 + 8 * i, 40 + 8 * i)) }
+spec fn dec_vals_n(b: Seq<u8>, n: int) -> Seq<u64> { Seq::new(n as nat, |i: int| dec_val_at(b, i)) }
+spec fn dec_vals(b: Seq<u8>) -> Seq<u64> { dec_vals_n(b, hdr_n(b)) }
 spec fn dec_keys<T>(b: Seq<u8>) -> Option<Seq<T>> { dec_items::<T>(b.skip(32 + 8 * hdr_n(b)), hdr_n(b)) }
 spec fn lgmax3(l: u8) -> u8 { if l >= 3 { l } else { 3 } }
 spec fn cap_of_lg(l: u8) -> int { (pow2(l as nat) * 3 / 4) as int }
@@ -741,27 +773,20 @@ impl<T: Eq + Hash> FrequentItemsSketch<T> {
         let mut cursor = SketchSlice::new(bytes);
         let pre_longs = cursor.read_u8().vx_io("pre_longs")?;
         let pre_longs = pre_longs & 0x3F;
-        proof { lemma_skip_take(b, 0, 1); }
         let serial_version = cursor
             .read_u8()
             .vx_io("serial_version")?;
-        proof { lemma_skip_take(b, 1, 1); }
         let family = cursor.read_u8().vx_io("family")?;
-        proof { lemma_skip_take(b, 2, 1); }
         let lg_max = cursor
             .read_u8()
             .vx_io("lg_max_map_size")?;
-        proof { lemma_skip_take(b, 3, 1); }
         let lg_cur = cursor
             .read_u8()
             .vx_io("lg_cur_map_size")?;
-        proof { lemma_skip_take(b, 4, 1); }
         let flags = cursor.read_u8().vx_io("flags")?;
-        proof { lemma_skip_take(b, 5, 1); }
         cursor
             .read_u16_le()
             .vx_io("<unused>")?;
-        proof { lemma_skip_take(b, 6, 2); }
 
         Family::FREQUENCY.validate_id(family)?;
         ensure_serial_version_is(SERIAL_VERSION, serial_version)?;
@@ -782,40 +807,28 @@ impl<T: Eq + Hash> FrequentItemsSketch<T> {
             .read_u32_le()
             .vx_io("active_items")?;
         let active_items = active_items as usize;
-        proof { lemma_skip_take(b, 8, 4); }
         cursor
             .read_u32_le()
             .vx_io("<unused>")?;
-        proof { lemma_skip_take(b, 12, 4); }
         let stream_weight = cursor
             .read_u64_le()
             .vx_io("stream_weight")?;
-        proof { lemma_skip_take(b, 16, 8); }
         let offset_val = cursor.read_u64_le().vx_io("offset")?;
-        proof { lemma_skip_take(b, 24, 8); }
 
         let mut values = vx_alloc_u64s(active_items, bytes.len());
-        proof { assert(dec_vals(b).take(0) =~= Seq::<u64>::empty()); }
+        proof { assert(dec_vals_n(b, 0) =~= Seq::<u64>::empty()); }
         for i in 0..active_items
           invariant
             b == bytes@, active_items == hdr_n(b), b.len() >= 32, !hdr_empty(b),
-            32 + 8 * i <= b.len(), cursor.rem() == b.skip(32 + 8 * i),
-            /*@C13.fi.counters*/ values@ == dec_vals(b).take(i as int),
+            cursor.data() == b, cursor.inv(), cursor.pos() == 32 + 8 * i,
+            /*@C13.fi.counters*/ values@ == dec_vals_n(b, i as int),
         {
-            proof {
-                if 40 + 8 * i <= b.len() {
-                    lemma_skip_take(b, 32 + 8 * i, 8);
-                    assert(b.skip(32).subrange(8 * i, 8 * i + 8) =~= b.subrange(32 + 8 * i, 40 + 8 * i));
-                }
-            }
-            let ghost v0 = values@;
             values.push(cursor.read_u64_le().vx_io("weight")?);
             proof {
-                assert(values@.last() == dec_vals(b)[i as int]);
-                assert(values@ =~= dec_vals(b).take(i + 1));
+                assert(values@.last() == dec_val_at(b, i as int));
+                assert(values@ =~= dec_vals_n(b, i + 1));
             }
         }
-        proof { assert(dec_vals(b).take(active_items as int) =~= dec_vals(b)); }
 
         let items = deserialize_items(cursor, active_items)?;
         if items.len() != active_items {
@@ -832,13 +845,12 @@ impl<T: Eq + Hash> FrequentItemsSketch<T> {
         let ghost lg = lgmax3(lg_cur);
         let mut sketch = Self::vx_with_lg_map_sizes(lg_max, lg_cur);
         proof {
-            assert(zs.skip(0) =~= zs);
             lemma_loaded_init(sketch.hash_map, ks, vs, lg);
         }
         let mut vx_it2 = vx_zip(items, values);
         loop
           invariant
-            0 <= j <= zs.len(), zs == zip_seq(ks, vs), ks.len() == vs.len(), vx_it2.rest() == zs.skip(j),
+            0 <= j <= zs.len(), zs == zip_seq(ks, vs), ks.len() == vs.len(), vx_it2.all() == zs, vx_it2.idx() == j,
             sketch.cwf(), sketch.lg_max_map_size == lgmax3(lg_max),
             vld ==> distinct(ks) && vals_pos(vs) && ks.len() <= cap_of_lg(lg) && sum_u64(vs) <= u64::MAX,
             /*@C13.fi.rows*/ vld ==> loaded(sketch.hash_map, sketch.stream_weight, sketch.offset, ks, vs, j, lg),
@@ -849,10 +861,6 @@ impl<T: Eq + Hash> FrequentItemsSketch<T> {
                 Some((item, value)) => {
                     let ghost m0 = sketch.hash_map;
                     let ghost sw0 = sketch.stream_weight;
-                    proof {
-                        assert(zs.skip(j)[0] == zs[j]);
-                        assert(zs.skip(j).skip(1) =~= zs.skip(j + 1));
-                    }
                     sketch.vx_update_with_count(item, value);
                     proof {
                         if vld { reveal(loaded); lemma_loaded_step(m0, sw0, sketch.hash_map, ks, vs, j, lg, cap_of_lg(lg)); }
@@ -998,9 +1006,10 @@ proof fn lemma_fi_roundtrip<T>(v: FiImg<T>)
     assert(e.subrange(8, 12) =~= le32_bytes(n as u32));
     assert(e.subrange(16, 24) =~= le64_bytes(v.sw));
     assert(e.subrange(24, 32) =~= le64_bytes(v.off));
-    assert(e.skip(32) =~= enc_u64s(v.vals) + enc_items(v.keys));
     assert(e.skip(32 + 8 * n) =~= enc_items(v.keys));
-    assert forall|i: int| 0 <= i < n implies dec_u64_at(e.skip(32), i) == v.vals[i] by { lemma_dec_enc_u64s(v.vals, enc_items(v.keys), i); }
+    let pre = h + le32_bytes(n as u32) + le32_bytes(0) + le64_bytes(v.sw) + le64_bytes(v.off);
+    assert(pre.len() == 32);
+    assert forall|i: int| 0 <= i < n implies dec_val_at(e, i) == v.vals[i] by { lemma_enc_u64s_at(v.vals, pre, enc_items(v.keys), i); lemma_le64_roundtrip(v.vals[i]); }
     assert(dec_vals(e) =~= v.vals);
     assert(e[0] == 4 && e[5] == 0 && e[1] == 1 && e[2] == 10);
     assert(4u8 & 0x3f == 4u8 && 0u8 & 5u8 == 0u8) by (bit_vector);
